@@ -132,7 +132,13 @@ def run_dask(cfg, split, order):
     from ..sched import RealGraph, TaskFailed
 
     outcome = "ok"
-    d, w, seen = build_dask(cfg, split)
+    try:
+        d, w, seen = build_dask(cfg, split)
+    except MachineryError:
+        raise
+    except Exception as ex:  # noqa: BLE001 - mpu_write refused to build the graph: an outcome of the write, not of the harness
+        return {"kind": "dask", "cfg": cfg, "split": split, "order": order or [], "writes": [], "fin": [], "hobs": [], "fobs": [],
+                "outcome": "graph_construction_" + type(ex).__name__}
     g = RealGraph(d)
     try:
         if order is None:
@@ -184,7 +190,7 @@ def dask_phase(ctx, cfgs, per_graph):
     jobs = [(cfg, split) for cfg in cfgs for split in range(len(cfg["shape"]))]
     shapes, by_shape = {}, []
     for shp in ctx.pmap(_graph_shape, jobs):
-        by_shape.append(shapes.setdefault(shp, len(shapes)))
+        by_shape.append(None if shp == (0, ()) else shapes.setdefault(shp, len(shapes)))
     graphs = [None] * len(shapes)
     for shp, i in shapes.items():
         graphs[i] = {"n": shp[0], "deps": [list(x) for x in shp[1]]}
@@ -196,7 +202,7 @@ def dask_phase(ctx, cfgs, per_graph):
                        "schedules": sum(len(v) for v in orders.values())})
     runs = []
     for (cfg, split), gi in zip(jobs, by_shape):
-        os_ = orders[gi]
+        os_ = orders[gi] if gi is not None else []
         if len(os_) > per_graph:
             os_ = [os_[i] for i in sorted(ctx.rng.sample(range(len(os_)), per_graph))]
         for o in os_:
@@ -208,7 +214,10 @@ def dask_phase(ctx, cfgs, per_graph):
 def _graph_shape(job):
     from ..sched import RealGraph
 
-    d, _, _ = build_dask(*job)
+    try:
+        d, _, _ = build_dask(*job)
+    except Exception:  # noqa: BLE001 - reported by run_dask as the outcome of this configuration
+        return (0, ())
     return RealGraph(d).shape()
 
 
